@@ -452,28 +452,90 @@ def inputEmpty (c : Cfg α) (s : State α) (i r : Nat) : Bool :=
   (List.range (c.width (i - 1))).all fun u => ((s.row (i - 1) u).out r).isEmpty
 
 def timeoutEnabled (c : Cfg α) (s : State α) (i r : Nat) : Bool :=
-  decide (1 ≤ i) && decide (i ≤ c.depth) && inputEmpty c s i r && !s.idle i r && isAdaptive (c.mode i)
+  decide (1 ≤ i) && decide (i ≤ c.depth) && decide (r < c.width i) && inputEmpty c s i r && !s.idle i r &&
+    isAdaptive (c.mode i)
 
 def flushIdle (s : State α) (i r : Nat) : State α :=
   { s with row := setRow s i r (s.row i r).flushAll,
            idle := fun i' r' => if i' = i ∧ r' = r then true else s.idle i' r' }
 
+/-- `recv i r u` concerns an existing link: replica `r` of layer `1 ≤ i ≤ depth + 1` (the sink is layer
+    `depth + 1`), upstream replica `u` of layer `i - 1` -/
+def recvGuard (c : Cfg α) (i r u : Nat) : Bool :=
+  decide (1 ≤ i) && decide (i ≤ c.depth + 1) && decide (r < c.width i) && decide (u < c.width (i - 1))
+
+/-- the oldest batch `b` (rest `bs`) of link `(j, u) → (j+1, r)` is taken by the receiver -/
+def pop (s : State α) (j u r : Nat) (b : List α) (bs : List (List α)) : State α :=
+  { s with
+    row := setRow s j u { s.row j u with out := fun d => if d = r then bs else (s.row j u).out d },
+    recvOn := fun i' u' r' => if i' = j ∧ u' = u ∧ r' = r then s.recvOn j u r ++ b else s.recvOn i' u' r' }
+
+/-- the sink records what it received -/
+def sinkGot (s : State α) (i r : Nat) (b : List α) : State α :=
+  { s with got := fun i' r' => if i' = i ∧ r' = r then s.got i r ++ b else s.got i' r' }
+
+/-- Events that address a replica that does not exist do nothing; a source that is already asleep
+    does not flush again (channel.rs:96-99: it sits in `recv()`). -/
 def step (c : Cfg α) (s : State α) : Ev α → State α
-  | .src r x els => process c s 0 r [x] els
-  | .srcIdle r => flushIdle s 0 r
+  | .src r x els => if r < c.width 0 then process c s 0 r [x] els else s
+  | .srcIdle r => if decide (r < c.width 0) && !s.idle 0 r then flushIdle s 0 r else s
   | .recv i r u els =>
-    if i = 0 then s else
-    match (s.row (i - 1) u).out r with
-    | [] => s
-    | b :: bs =>
-      let ρ := s.row (i - 1) u
-      let s1 : State α :=
-        { s with row := setRow s (i - 1) u { ρ with out := fun d => if d = r then bs else ρ.out d },
-                 recvOn := fun i' u' r' => if i' = i - 1 ∧ u' = u ∧ r' = r then s.recvOn (i - 1) u r ++ b
-                                          else s.recvOn i' u' r' }
-      if i ≤ c.depth then process c s1 i r b els
-      else { s1 with got := fun i' r' => if i' = i ∧ r' = r then s.got i r ++ b else s1.got i' r' }
+    if recvGuard c i r u then
+      match (s.row (i - 1) u).out r with
+      | [] => s
+      | b :: bs =>
+        if i ≤ c.depth then process c (pop s (i - 1) u r b bs) i r b els
+        else sinkGot (pop s (i - 1) u r b bs) i r b
+    else s
   | .timeout i r => if timeoutEnabled c s i r then flushIdle s i r else s
+
+/-- does the event do anything in this state? -/
+def Enabled (c : Cfg α) (s : State α) : Ev α → Bool
+  | .src r _ _ => decide (r < c.width 0)
+  | .srcIdle r => decide (r < c.width 0) && !s.idle 0 r
+  | .recv i r u _ => recvGuard c i r u && !((s.row (i - 1) u).out r).isEmpty
+  | .timeout i r => timeoutEnabled c s i r
+
+def Ev.isSrc : Ev α → Bool
+  | .src _ _ _ => true
+  | _ => false
+
+/-- number of events of a schedule that are enabled when their turn comes -/
+def countEnabled (c : Cfg α) (s : State α) : List (Ev α) → Nat
+  | [] => 0
+  | e :: es => (if Enabled c s e then 1 else 0) + countEnabled c (step c s e) es
+
+/-- nothing but new input can happen any more -/
+def NoEnabled (c : Cfg α) (s : State α) : Prop := ∀ e : Ev α, Ev.isSrc e = false → Enabled c s e = false
+
+/-! #### Work bound of the network -/
+
+/-- hops ahead of an element that arrives at layer `j` (`fuel` = layers left, the sink costs nothing):
+    2 for every batch it (or what the chains make of it) can still be part of -/
+def wtN (c : Cfg α) : Nat → Nat → α → Nat
+  | 0, _, _ => 0
+  | k + 1, j, y => ((c.f j y).map (fun z => 2 + wtN c k (j + 1) z)).sum
+
+/-- weight of an element sitting in a batcher or on an outgoing link of layer `i` -/
+def wOut (c : Cfg α) (i : Nat) (y : α) : Nat := wtN c (c.depth - i) (i + 1) y
+
+def sumTo : Nat → (Nat → Nat) → Nat
+  | 0, _ => 0
+  | n + 1, g => sumTo n g + g n
+
+/-- one batcher with its link: 2 per buffered element, 2 per queued batch, plus what they cause below -/
+def cellW (c : Cfg α) (s : State α) (i r d : Nat) : Nat :=
+  (((s.row i r).buf d).map (fun y => 2 + wOut c i y)).sum +
+  (((s.row i r).out d).map (fun b => 2 + (b.map (wOut c i)).sum)).sum
+
+/-- one replica: its batchers towards the replicas of the next layer, plus 1 while its timeout
+    (layer 0: the idle flush of the source) is still armed -/
+def rowW (c : Cfg α) (s : State α) (i r : Nat) : Nat :=
+  sumTo (c.width (i + 1)) (cellW c s i r) + (if s.idle i r then 0 else 1)
+
+/-- **Work bound**: every enabled event except `src` lowers it -/
+def phi (c : Cfg α) (s : State α) : Nat :=
+  sumTo (c.depth + 1) (fun i => sumTo (c.width i) (rowW c s i))
 
 def run (c : Cfg α) (s : State α) : List (Ev α) → State α
   | [] => s
@@ -482,11 +544,11 @@ def run (c : Cfg α) (s : State α) : List (Ev α) → State α
 /-- nothing buffered, nothing on any link -/
 def Quiescent (s : State α) : Prop := ∀ i r d, (s.row i r).buf d = [] ∧ (s.row i r).out d = []
 
-/-- no `recv`, no `timeout` and no source flush can do anything any more -/
-def Stuck (c : Cfg α) (s : State α) : Prop :=
-  (∀ i r d, (s.row i r).out d = []) ∧
-  (∀ r, s.idle 0 r = true) ∧
-  (∀ i r, 1 ≤ i → i ≤ c.depth → timeoutEnabled c s i r = false)
+/-- every real link `(i, r) → (i+1, d)` has delivered everything: batcher and channel empty, and the
+    destination has received exactly, in order, what was enqueued for it -/
+def Delivered (c : Cfg α) (s : State α) : Prop :=
+  ∀ i r d, i ≤ c.depth → r < c.width i → d < c.width (i + 1) →
+    (s.row i r).buf d = [] ∧ (s.row i r).out d = [] ∧ s.recvOn i r d = (s.row i r).sent d
 
 end Noir.Net
 
